@@ -118,6 +118,7 @@ type frameLoc struct {
 
 // frameSpec: active modifies clause while verifying a target body.
 type frameSpec struct {
+	deny      []frameLoc // preserved locations (checked even when all is set)
 	locs      []frameLoc
 	all       bool
 	snapAlloc *smt.Term
@@ -189,6 +190,7 @@ type Exec struct {
 	axSeen   map[int]bool
 	epochCtr int
 	vacuityOn bool
+	noSafety int
 	lastResult *smt.Term
 }
 
@@ -522,6 +524,10 @@ func (e *Exec) check(st *State, kind string, goal *smt.Term, pos token.Pos, labe
 		st.Assume(goal)
 		return
 	}
+	if e.noSafety > 0 && (kind == "pre" || kind == "panic-reach") {
+		st.Assume(goal)
+		return
+	}
 	if goal.HasBound {
 		unsupported("obligation under a quantifier")
 	}
@@ -549,6 +555,11 @@ func (e *Exec) hyp(st *State) *smt.Term {
 // safety obligations are skipped in spec mode.
 func (e *Exec) safety(st *State, kind string, goal *smt.Term, pos token.Pos) {
 	if e.spec > 0 {
+		return
+	}
+	if e.noSafety > 0 {
+		// safety of this function is not claimed: continue as if the check passed
+		st.Assume(goal)
 		return
 	}
 	e.check(st, kind, goal, pos, "")
@@ -668,5 +679,14 @@ func (e *Exec) assumeNotFresh(st *State, v *smt.Term, t types.Type, since *smt.T
 	}
 	for _, a := range e.addrsIn(v, t) {
 		e.fact(st, v, smt.Not(isFresh(a, since)))
+	}
+}
+
+func (e *Exec) assumeNotFreshIf(st *State, cond *smt.Term, v *smt.Term, t types.Type, since *smt.Term) {
+	if v.HasBound || cond.HasBound {
+		return
+	}
+	for _, a := range e.addrsIn(v, t) {
+		e.fact(st, v, smt.Implies(cond, smt.Not(isFresh(a, since))))
 	}
 }
